@@ -32,7 +32,7 @@ JudgeOk(r) ==
         bad == SelectSeq(cl, LAMBDA x : ~x[2])
         exp == W!Expected(lens, r.kind, r.max, r.ctx)
         mech == IF W!MustFail(r.kind, r.max, r.ctx) THEN TRUE
-                ELSE IF ok THEN wins = exp ELSE (exp # <<>> /\ exp[Len(exp)] = "fail")
+                ELSE IF ok THEN wins = exp ELSE (exp # <<>> /\ exp[Len(exp)] = W!FailW)
     IN [why |-> [k \in 1..Len(bad) |-> bad[k][1]],
         drift |-> IF mech THEN <<>> ELSE <<"windows_differ_from_stepping_machine">>,
         skip |-> FALSE,
